@@ -71,6 +71,9 @@ impl World for StateWorld {
     fn id(&self) -> u8 {
         6
     }
+    fn shared_wakers(&self) -> bool {
+        true
+    }
     fn name(&self) -> &'static str {
         "state"
     }
@@ -79,15 +82,15 @@ impl World for StateWorld {
     }
     fn configs(&self, tier: Tier) -> Vec<Cfg> {
         let k = if tier == Tier::Quick { 5 } else { 6 };
-        let mut v: Vec<Cfg> = [FL_LOCAL, FL_SYNC, FL_CHECKED, FL_SHARED, FL_SHARED_CHECKED].iter().map(|&flavour| Cfg { flavour, mode: 0, x: 0, y: 0, k }).collect();
+        let mut v: Vec<Cfg> = [FL_LOCAL, FL_SYNC, FL_CHECKED, FL_SHARED, FL_SHARED_CHECKED].iter().map(|&flavour| Cfg { flavour, mode: 0, x: 0, y: 0, k, sw: 0 }).collect();
         // mode 1: requested ids also come from another channel (ids ahead of this channel's)
-        v.push(Cfg { flavour: FL_LOCAL, mode: 1, x: 0, y: 0, k });
-        v.push(Cfg { flavour: FL_SHARED_CHECKED, mode: 1, x: 0, y: 0, k });
+        v.push(Cfg { flavour: FL_LOCAL, mode: 1, x: 0, y: 0, k, sw: 0 });
+        v.push(Cfg { flavour: FL_SHARED_CHECKED, mode: 1, x: 0, y: 0, k, sw: 0 });
         v
     }
     fn enum_configs(&self, tier: Tier) -> Vec<(Cfg, usize)> {
         let (k, d) = if tier == Tier::Quick { (2, 9) } else { (2, 12) };
-        vec![(Cfg { flavour: FL_CHECKED, mode: 0, x: 0, y: 0, k }, d), (Cfg { flavour: FL_SHARED_CHECKED, mode: 0, x: 0, y: 0, k }, d), (Cfg { flavour: FL_CHECKED, mode: 1, x: 0, y: 0, k }, d - 2)]
+        vec![(Cfg { flavour: FL_CHECKED, mode: 0, x: 0, y: 0, k, sw: 0 }, d), (Cfg { flavour: FL_SHARED_CHECKED, mode: 0, x: 0, y: 0, k, sw: 0 }, d), (Cfg { flavour: FL_CHECKED, mode: 1, x: 0, y: 0, k, sw: 0 }, d - 2)]
     }
     fn specs(&self, cfg: &Cfg) -> Vec<OpSpec> {
         let shared = cfg.flavour >= FL_SHARED;
@@ -250,6 +253,7 @@ fn foreign_ids() -> Vec<StateId> {
 
 fn run_m<M: RawMutex + 'static>(cfg: &Cfg, ops: &[Op], run: &mut Run) {
     tls::reset_history();
+    tls::set_shared_b(cfg.sw == 1);
     payload::reset();
     let shared = cfg.flavour >= FL_SHARED;
     let chan_owner: Chan<M> = if shared {
